@@ -20,6 +20,7 @@
 -/
 import MpirProofs.Lemmas.AliasDiv
 import MpirProofs.Lemmas.AliasUi
+import MpirProofs.Lemmas.AliasUi2
 namespace Mpir.AliasMem
 open Mpir
 
@@ -165,6 +166,28 @@ theorem div_q_ui_ptr_spec (dir : Int) (hdir : dir = 0 ∨ dir = -1 ∨ dir = 1) 
 example : (div_q_ui (-1) 1 1 7 exSt).map (fun p => (p.1, p.2.view 2)) =
     .ok (2, [(2 ^ 200 + 12345, 4, 0), (-168655945816773043347, 2, 1)]) := by decide
 example : Int.fdiv (-(2 ^ 70 + 3)) 7 = -168655945816773043347 ∧ Int.fmod (-(2 ^ 70 + 3)) 7 = 2 := by decide
+
+/-- mpz_{t,f,c}div_r_ui (r = n allowed; `PTR (rem)[0] = rl` is stored without a realloc: `1 ≤ ALLOC (r)` is MPIR's object
+    invariant) and mpz_{t,f,c}div_qr_ui (q ≠ r; q = n or r = n allowed). -/
+theorem div_r_ui_ptr_spec (dir : Int) (hdir : dir = 0 ∨ dir = -1 ∨ dir = 1) {s : St} (h : Inv s) {r n : Nat}
+    (hr : r < s.nv) (hn : n < s.nv) (d : Nat) (hd0 : d ≠ 0) (hdB : d < B) (ha : 1 ≤ s.alloc r) :
+    ∃ s', div_r_ui dir r n d s = .ok (DivZ.uiRet (DivZ.specR dir (s.value n) d), s') ∧ Inv s' ∧ s'.nv = s.nv ∧
+      s'.value r = DivZ.specR dir (s.value n) d ∧ ∀ i, i < s.nv → i ≠ r → s'.value i = s.value i :=
+  div_r_ui_ok dir hdir h hr hn d hd0 hdB ha
+
+theorem div_qr_ui_ptr_spec (dir : Int) (hdir : dir = 0 ∨ dir = -1 ∨ dir = 1) {s : St} (h : Inv s) {q r n : Nat}
+    (hq : q < s.nv) (hr : r < s.nv) (hn : n < s.nv) (hqr : q ≠ r) (d : Nat) (hd0 : d ≠ 0) (hdB : d < B)
+    (ha : 1 ≤ s.alloc r) :
+    ∃ s', div_qr_ui dir q r n d s = .ok (DivZ.uiRet (DivZ.specR dir (s.value n) d), s') ∧ Inv s' ∧ s'.nv = s.nv ∧
+      s'.value q = DivZ.specQ dir (s.value n) d ∧ s'.value r = DivZ.specR dir (s.value n) d ∧
+      ∀ i, i < s.nv → i ≠ q → i ≠ r → s'.value i = s.value i :=
+  div_qr_ui_ok dir hdir h hq hr hn hqr d hd0 hdB ha
+
+-- r = n: the remainder limb lands on limb 0 of the operand; ceiling: r = -6, returned 6
+example : (div_r_ui 1 0 0 7 exSt).map (fun p => (p.1, p.2.view 1)) = .ok (6, [(-6, 4, 0)]) := by decide
+-- q = n in place, r separate, floor of a negative dividend
+example : (div_qr_ui (-1) 1 2 1 7 exSt).map (fun p => (p.1, p.2.view 3)) =
+    .ok (2, [(2 ^ 200 + 12345, 4, 0), (-168655945816773043347, 2, 1), (2, 1, 2)]) := by decide
 
 /-- one statement for the three-argument functions: the aliased call leaves in `w` what the call with a distinct
     output variable `w'` leaves in `w'`. -/
